@@ -34,6 +34,7 @@ const (
 	kfHashResidual       = "K22-hash-join-residual-bound-to-first-outer-row"
 	kfMixedJoin          = "K10-hash-join-integer-float-never-match"
 	kfNullRange          = "K23-typed-null-join-key-and-float-constant-range"
+	kfGroupNulls         = "K24-group-by-order-by-loses-nulls-first-last"
 )
 
 var tmpOnce sync.Once
